@@ -85,7 +85,7 @@ def make_run(rng, tag):
         levels=[c for c in ("ModifiedPeptide",) if rng.random() < 0.4],
         cconf=rng.choice([3, 5, 8, 1000]), cmerge=rng.choice([2, 7, 1000]), fmt=rng.choice(["pin", "pin", "parquet"]),
         prefix=rng.choice([None, None, "a", "b"]), decoys=rng.random() < 0.8, dedup=rng.random() < 0.8,
-        data_seed=rng.randrange(1 << 30),
+        data_seed=rng.randrange(1 << 30), cconf_divides=rng.random() < 0.5,
     )
 
 
@@ -98,6 +98,10 @@ def execute(run, dest, workroot, crash=None):
                                label_enc="pm1", optional=("ExpMass",), level_cols=tuple(run["levels"]), signal=3.0)
     inp = workroot / f"in-{run['tag']}.{run['fmt']}"
     mkdata.write_table(df, inp)
+    if run.get("cconf_divides"):   # a chunk size that divides the row count exactly (no partial last chunk)
+        divs = [c for c in range(2, len(df)) if len(df) % c == 0]
+        if divs:
+            run = dict(run, cconf=divs[run["data_seed"] % len(divs)])
     ds = mkdata.read_dataset(inp)
     with P.chunk_sizes(confidence=run["cconf"], merge=run["cmerge"]), P.pep_kernel(stub=True), crash_at(crash) as ctr:
         P.run_assign_confidence([ds], [df["feat0"].values.astype(float)], dest, prefixes=[run["prefix"]],
@@ -122,8 +126,8 @@ def stale_files(case, dest: Path):
     obs = case["observed"]
     ext = "." + obs["fmt"]
     pre = f"{obs['prefix']}." if obs["prefix"] else ""
-    names = [f"{pre}scores_metadata_0{ext}", f"{pre}scores_metadata_7{ext}", f"{pre}scores_metadata_99{ext}",
-             f"psms{ext}", f"peptides{ext}", f"{pre}targets.psms", f"{pre}decoys.peptides"]
+    names = [f"{pre}scores_metadata_{i}{ext}" for i in list(range(0, 45)) + [99]]
+    names += [f"psms{ext}", f"peptides{ext}", f"{pre}targets.psms", f"{pre}decoys.peptides"]
     for nm in names:
         (dest / nm).write_text("SpecId\tLabel\tScanNr\tExpMass\tPeptide\tProteins\tscore\nstale\t1\t1\t1\tP\tQ\t9e9\n")
     return names
